@@ -1,24 +1,31 @@
-"""C10 — replies reach only their own client and carry only their own bytes (work in progress)."""
+"""C10 — replies reach only their own client and carry only their own bytes."""
 
+# every sync.Pool of these packages becomes a deterministic LIFO (vsync.PoolLIFO): chains, edns/cache
+# writers, streams and pack state released by one client are always what the next client gets
 _SRV_RW = {"server": ["sync"], "middleware": ["sync"], "middleware/edns": ["sync"], "middleware/cache": ["sync"],
            "internal/wire": ["sync"], "internal/cache": ["sync"], "internal/dnsclient": ["sync"]}
+_SRV_H = {"server": ["zz_verif_c11_tcpworld_test.go", "zz_verif_c11_tcp_test.go", "zz_verif_c11_udp_test.go", "zz_verif_c10_*.go"],
+          "middleware": ["zz_verif_export.go"]}
 
 CHECK = {
     "level": "model_checking",
     "engines": ["event", "space"],
-    "technique": "wip",
-    "level_text": "wip",
-    "level_note": "wip",
-    "rule": "wip",
-    "assumptions": [],
-    "bounds": {"quick": "", "thorough": ""},
+    "technique": "event-level exploration of the real TCP engine with two scripted connections (all interleavings of their reads and closes) and step-order exploration of the real UDP engine over real loopback sockets with 2-3 client sockets, both on the real server entry and the real [edns, cache, marker-stub] pipeline with forced LIFO reuse of every pooled object and slab rings of 1-2; plus exhaustive size/reserve enumeration of the wire-body lease over a poisoned job slab",
+    "level_text": "tcp: clients A and B each send <=2 pipelined frames from {cache hit, miss, malformed body, QR=1, NOTIFY, handler panic after the reply (thorough: +2048/2049-byte queries, sub-header frame)}, each stream cut at every structural offset or not at all, under EVERY interleaving of the two connections' read deliveries and peer-close events, with 1 and 2 small slabs (so the slab, stream, chain, writers and pack state one client releases are what the other gets next). Every frame a connection receives must be a whole frame that answers its own query in order (ID, question, per-query marker record), must contain no occurrence of the other client's 8-byte label anywhere, a bare-header rejection must carry zero section counts, replies must be on the wire whenever the connection waits at a frame boundary, and a request that ends without a reply (ignored, malformed, panicked) leaves nothing for the other client; afterwards the engine is quiescent. udp: the C11 step exploration restricted to scenarios where >=2 different sockets send: a datagram reaches only the socket whose query it answers, carries its ID/question/marker, contains no other client's label, ignored/shed requests produce nothing later on a recycled slab. lease: for every body size 12..600/4200 x reserve {0,1,11,28,64} x slab {512,4096}, BeginWire over a leasing transport whose slab is filled with another client's bytes returns len 0 / cap exactly size+reserve (or a clean fallback), appending past the reserve never writes into the slab, and the transport receives exactly the body.",
+    "level_note": "Trusted: as C11 (scripted net.Conn, kernel side of recvmmsg emulated, engine step functions called from one goroutine). Provenance is checked by byte search for the other client's label (present in its qname, and therefore in its question, answer owner and marker) and by ID; the slack behind a reply inside a job slab is covered by the lease unit, not by inspecting slabs after the fact. Not covered: DoH/DoQ/DoT transports, shared upstream lookups in the resolver (groupLookup copies), dns64/ratelimit/other middlewares' pooled writers, the portable UDP reader's rawSALen scrub (needs mixed batch/portable readers), wildcard pktinfo, real multi-core interleaving inside one step.",
+    "rule": "tcp: (slabs, frames of A, frames of B, cut?, cut?, interleaving); 'nontrivial' = interleavings in which the two connections really alternate (a..b..a or b..a..b); udp: datagram sequence x cap x inline x full schedule, nontrivial = >=2 datagrams; lease: nontrivial = sizes actually leased from the slab",
+    "assumptions": ["loopback UDP preserves order per socket pair", "with a single small slab, schedules in which one connection would need the slab the other holds inside a frame body are skipped (the engine would wait on real time); they are explored with 2 slabs"],
+    "bounds": {"quick": "tcp: 6 kinds, (1,1),(2,1),(1,2) frames, <=1 cut per client, all interleavings, slabs 1-2; udp: <=3 datagrams, 2 clients, cap 1-2; lease: sizes 12-600",
+               "thorough": "tcp: 9 kinds, + (2,2) frames (time-capped); udp: <=4 datagrams, 3 clients, cap 1-3 (time-capped); lease: sizes 12-4200"},
     "units": {
         "lease": {"pkg": "middleware", "run": "TestVerifC10Lease",
                   "harness": {"middleware": ["zz_verif_c11_writer_test.go", "zz_verif_c10_*.go"]}, "shards": 4,
                   "budget_s": {"quick": 30, "thorough": 120}},
-        "tcp": {"pkg": "server", "run": "TestVerifC10TCP",
-                "harness": {"server": ["zz_verif_c11_tcpworld_test.go", "zz_verif_c11_tcp_test.go", "zz_verif_c10_tcp_test.go"], "middleware": ["zz_verif_export.go"]},
+        "tcp": {"pkg": "server", "run": "TestVerifC10TCP", "harness": _SRV_H,
                 "rewrite": _SRV_RW, "gomaxprocs": 2,
-                "budget_s": {"quick": 70, "thorough": 600}},
+                "budget_s": {"quick": 70, "thorough": 330}},
+        "udp": {"pkg": "server", "run": "TestVerifC10UDP", "harness": _SRV_H,
+                "rewrite": _SRV_RW, "gomaxprocs": 2,
+                "budget_s": {"quick": 60, "thorough": 300}},
     },
 }
